@@ -19,11 +19,12 @@
       `code_tokenwise` (simultaneous substitution, never re-scanned), `code_optional_fallback_root`.
 -/
 import Flamego.Gen.LeafURLCode
+import Flamego.Code.LoopLemmas
 import Flamego.Props.C12
 set_option linter.unusedSimpArgs false
 set_option linter.unusedVariables false
 namespace Flamego.C12LeafCode
-open Flamego.GoSem Flamego.Gen.LeafURLCode Flamego.Url
+open Flamego.GoSem Flamego.Gen.LeafURLCode Flamego.Url Flamego.LoopLemmas
 
 /-! ### the parser's AST in the Go structs of this module -/
 
@@ -40,52 +41,6 @@ def goSeg (s : Flamego.Segment) : Gen.LeafURLCode.Segment :=
   { Pos := (), Slash := [47], Optional := s.optional, Elements := s.elems.map goElem, strOnce := false, str := [] }
 def goRoute (r : Flamego.Route) : Gen.LeafURLCode.Route :=
   { Segments := r.segs.map fun s => some (goSeg s), strOnce := false, str := [] }
-
-/-! ### loops whose bodies never return -/
-
-theorem loop_next {α β σ ρ : Type} (g : α → β) (f : σ → α → σ) (body : Int × β → σ → GoSem.Ctl ρ × σ)
-    (hbody : ∀ i x st, body (i, g x) st = (GoSem.Ctl.next, f st x)) (xs : List α) (n : Nat) (st : σ) :
-    GoSem.forRangeCtl (ρ := ρ) (((xs.map g).zipIdx n).map fun p => ((p.2 : Int), p.1)) body st
-      = (GoSem.Ctl.next, xs.foldl f st) := by
-  induction xs generalizing n st with
-  | nil => rfl
-  | cons x xs ih =>
-    simp only [List.map_cons, List.zipIdx_cons, GoSem.forRangeCtl, hbody, List.foldl_cons]
-    exact ih (n + 1) _
-
-
-theorem loop_next_from {α β σ ρ : Type} (g : α → β) (f : σ → α → σ) (body : Int × β → σ → GoSem.Ctl ρ × σ) (n0 : Nat)
-    (hbody : ∀ (i : Nat) x st, n0 ≤ i → body ((i : Int), g x) st = (GoSem.Ctl.next, f st x)) (xs : List α) (n : Nat)
-    (hn : n0 ≤ n) (st : σ) :
-    GoSem.forRangeCtl (ρ := ρ) (((xs.map g).zipIdx n).map fun p => ((p.2 : Int), p.1)) body st
-      = (GoSem.Ctl.next, xs.foldl f st) := by
-  induction xs generalizing n st with
-  | nil => rfl
-  | cons x xs ih =>
-    simp only [List.map_cons, List.zipIdx_cons, GoSem.forRangeCtl, hbody n x st hn, List.foldl_cons]
-    exact ih (n + 1) (by omega) _
-
-/-- a loop whose body either leaves the loop (`break`) or goes on: the fold over the entries before the first break -/
-theorem loop_brk {α β σ ρ : Type} (g : α → β) (stop : α → Bool) (f : σ → α → σ) (body : Int × β → σ → GoSem.Ctl ρ × σ)
-    (hbody : ∀ i x st, body (i, g x) st = (if stop x then (GoSem.Ctl.brk, st) else (GoSem.Ctl.next, f st x)))
-    (xs : List α) (n : Nat) (st : σ) :
-    GoSem.forRangeCtl (ρ := ρ) (((xs.map g).zipIdx n).map fun p => ((p.2 : Int), p.1)) body st
-      = (GoSem.Ctl.next, (xs.takeWhile (fun x => !stop x)).foldl f st) := by
-  induction xs generalizing n st with
-  | nil => rfl
-  | cons x xs ih =>
-    simp only [List.map_cons, List.zipIdx_cons, GoSem.forRangeCtl, hbody]
-    cases hs : stop x with
-    | true => simp [List.takeWhile_cons, hs]
-    | false =>
-      simp only [Bool.false_eq_true, if_false, List.takeWhile_cons, hs, Bool.not_false, if_true, List.foldl_cons]
-      exact ih (n + 1) _
-
-theorem foldl_append_flatMap {α : Type} (f : α → Bytes) (xs : List α) (acc : Bytes) :
-    xs.foldl (fun b x => b ++ f x) acc = acc ++ xs.flatMap f := by
-  induction xs generalizing acc with
-  | nil => simp
-  | cons x xs ih => simp [List.foldl_cons, ih, List.flatMap_cons, List.append_assoc]
 
 /-! ### what each level writes -/
 
